@@ -4,7 +4,7 @@ from __future__ import annotations
 import itertools
 
 from ..core import Prop, Violation
-from ._coord import CoordMixin, Impl, gen_multi_kill
+from ._coord import CoordMixin, Impl, gen_multi_kill, gen_cycled_ring
 
 FINDING = "C15-edges-dropped-on-progress"
 EXCUSABLE = {"exact_missed_deadlock", "exact_phantom_deadlock", "reported_members_really_wait"}   # never: acquire_result_matches_lock, victim / handling clauses
@@ -66,6 +66,7 @@ class C15(CoordMixin, Prop):
                     extra.append({"info": info, "state": None})
                     continue
                 st = impl.snapshot()
+                info["now"] = self.clock.us
                 obs.append(f"{res} | {impl.dump(st)}")
                 try:
                     dl = impl.deadlock_view()
@@ -89,6 +90,8 @@ class C15(CoordMixin, Prop):
     def generate(self, rng, tier, n):
         for i in range(max(20, n // 40)):
             yield gen_multi_kill(rng)
+        for i in range(max(40, n // 25)):
+            yield gen_cycled_ring(rng)
         # preemption, then the loser asks again for what it lost, then the winner asks for something the loser holds
         for i in range(max(20, n // 40)):
             pa, pb = rng.choice([(1, 5), (0, 1), (2, 3), (3, 3), (4, 2)])
@@ -148,7 +151,8 @@ class C15(CoordMixin, Prop):
                 elif c < 0.95:
                     lines.append("deadlock")
                 else:
-                    lines.append(rng.choice(["boost", "maint", f"exempt {o} 1", "adv 3"]))
+                    lines.append(rng.choice(["boost", "maint", f"exempt {o} 1", "adv 3", f"advance {o}", f"advance {o}",
+                                             f"flag {o} {rng.choice('rev')} {rng.choice('011')}"]))
             lines.append("deadlock")
             lines.append("watchdog")
             lines.append("deadlock")
@@ -175,6 +179,7 @@ class C15(CoordMixin, Prop):
         trig_at = None          # first line at which a trigger event of the known finding happened
         prev = None
         strategy = "priority"
+        started = {}            # op -> virtual time of its `start` line, as the harness saw it (never read back from the context)
         for idx, (line, o, ex) in enumerate(zip(case["lines"], obs, extra)):
             t = line.split()
             st = ex.get("state")
@@ -188,8 +193,13 @@ class C15(CoordMixin, Prop):
             if k == "cfg":
                 strategy = t[4]
                 pend = set()
+                started = {}
+            if k == "setwd" and len(t) == 5:
+                strategy = t[4]
             if k in ("start", "exec", "cell") and prev is not None and len(t) > 1 and t[1] in prev["active"]:
                 break                                   # id reuse: outside the quantifier
+            if k == "start" and len(t) == 3 and t[1] in st["active"]:
+                started[t[1]] = info.get("now", 0)
             if k in ("exec", "cell", "shutdown"):
                 trig_at = idx if trig_at is None else trig_at       # outside the fragment covered by c15_exact_partial
             # ---- what an acquisition / release really did, read from the locks themselves (ResourceLock.owner), not from
@@ -240,9 +250,11 @@ class C15(CoordMixin, Prop):
                 if members and strategy in ("priority", "oldest"):
                     # priorities as the watchdog saw them (maint boosts first: read them from the boosted contexts
                     # is impossible afterwards, so the rule is checked for plain `watchdog` only)
-                    if k == "watchdog":
+                    # "oldest" = started first: the start times are the harness's own record of the history (a context's
+                    # created_at is only what the code remembers of it); boosts do not touch them, so `maint` is judged too
+                    if k == "watchdog" or strategy == "oldest":
                         keyf = (lambda a: prev["active"][a]["prio"]) if strategy == "priority" else \
-                            (lambda a: prev["active"][a]["created"])
+                            (lambda a: started.get(a, prev["active"][a]["created"]))
                         best = min(keyf(a) for a in members)
                         if not any(a in killed and keyf(a) == best for a in members):
                             out.append(Violation("victim_is_lowest_priority_or_oldest",
